@@ -13,7 +13,7 @@
     derived from the two abstract hypotheses of [C02_vecid_sec2], which the
     plugin checks as table obligations on every basis vector, and evaluated as
     oracles on the implementation. *)
-From Dino Require Import Base.Ops Base.Sums Base.Inst Gen.DerivExprs Model.Deriv Thm.Deriv.
+From Dino Require Import Base.Ops Base.Sums Base.Inst Gen.DerivExprs Model.Deriv Thm.Deriv Thm.LegendrePoly.
 From Coq Require Import Reals Qcanon Lra.
 Local Open Scope F_scope.
 
@@ -251,6 +251,39 @@ Proof.
     + intros _. exact A1.
 Qed.
 
+(** *** the analytic-derivative relation of the Legendre basis functions, from the recurrence of
+    associated_legendre.py (Thm/LegendrePoly.v, section DerivRel).
+    Full statement aimed at (C02_legendre_derivative_relation): for the coefficient lists
+    q_{m,l} = leg_q sq m l of the code's recurrence and their formal derivative,
+      (1 - x^2) q_{m,l}' - m x q_{m,l} = (l+1) eps(m,l) q_{m,l-1} - l eps(m,l+1) q_{m,l+1},
+    the relation that Grid.cos_lat_d_dlat implements with the weights d1_wm = (l+1) a, d1_wp = -l b.
+    PROVED here (partial): the relation for ANY value sequences Q k, dQ k that satisfy the normalised
+    three-term recurrence and its formal derivative (product rule), for every field, every order m
+    (field value M), every point t and every degree l = m + k; together with the identity
+    1 + (2l-1) eps_l^2 = (2l+3) eps_{l+1}^2 of the closed form a2_expr (Gen/DerivExprs.v) it uses.
+    MISSING: the instantiation Q k := peval (leg_q sq m (m+k)) t, dQ k := peval (pderiv ..) t
+    (Leibniz rule of the formal derivative on products of coefficient lists), and a Qc instance
+    (M = 1/2 makes eps = 1/2 rational).  The plugin keeps the numerical table obligation. *)
+Theorem C02_legendre_derivative_relation_partial {F : Type} {o : Ops F} {Fc : FieldC o}
+  (t M : F) (Q dQ e Lf : nat -> F) :
+  Lf 0%nat = M -> (forall k, Lf (S k) = Lf k + 1) ->
+  e 0%nat = 0 -> (forall k, e (S k) <> 0) ->
+  e 1%nat * Q 1%nat = t * Q 0%nat ->
+  (forall k, e (S (S k)) * Q (S (S k)) = t * Q (S k) - e (S k) * Q k) ->
+  dQ 0%nat = 0 ->
+  e 1%nat * dQ 1%nat = Q 0%nat + t * dQ 0%nat ->
+  (forall k, e (S (S k)) * dQ (S (S k)) = Q (S k) + t * dQ (S k) - e (S k) * dQ k) ->
+  (forall k, 1 + ((1 + 1) * Lf k - 1) * (e k * e k) = ((1 + 1) * Lf k + 1 + 1 + 1) * (e (S k) * e (S k))) ->
+  (forall k, (1 - t * t) * dQ k - M * t * Q k
+             = (Lf k + 1) * (e k * (match k with O => 0 | S k' => Q k' end)) - Lf k * (e (S k) * Q (S k)))
+  /\ (forall l m : F, lit 4 * (l * l) - 1 <> 0 -> lit 4 * ((l + 1) * (l + 1)) - 1 <> 0 ->
+        1 + ((1 + 1) * l - 1) * a2_expr 1 l m = ((1 + 1) * l + 1 + 1 + 1) * a2_expr 1 (l + 1) m).
+Proof.
+  intros H1 H2 H3 H4 H5 H6 H7 H8 H9 H10. split.
+  - intros k. exact (deriv_relation_abstract t M Q dQ e Lf H1 H2 H3 H4 H5 H6 H7 H8 H9 H10 k).
+  - exact eps2_key.
+Qed.
+
 Print Assumptions C02_gen_complete.
 Print Assumptions C02_shift_down.
 Print Assumptions C02_shift_up.
@@ -276,3 +309,4 @@ Print Assumptions C02_vecid_sec2.
 Print Assumptions C02_grad_top_clipped.
 Print Assumptions C02_hyps_satisfiable.
 Print Assumptions C02_cos2_hyps_satisfiable_R.
+Print Assumptions C02_legendre_derivative_relation_partial.
